@@ -90,7 +90,7 @@ func genC(t *rapid.T) CaseC {
 	for i := 0; i < k; i++ {
 		l := fmt.Sprintf("op%d_", i)
 		op := OpC{
-			Kind: rapid.SampledFrom([]string{"reg", "reg", "reg", "rereg", "rereg", "checkin", "cbcheckin", "cbcheckin", "reg0", "truncreg", "smbreg", "markdead", "exitcb", "markalive"}).Draw(t, l+"kind"),
+			Kind: rapid.SampledFrom([]string{"reg", "reg", "reg", "rereg", "rereg", "checkin", "cbcheckin", "cbcheckin", "reg0", "truncreg", "smbreg", "smbreg-mismatch", "markdead", "exitcb", "markalive"}).Draw(t, l+"kind"),
 			Slot: rapid.IntRange(0, n-1).Draw(t, l+"slot"), Other: rapid.IntRange(0, n-1).Draw(t, l+"other"),
 			Meta: genMetaC(t, l), KeySeed: rapid.Byte().Draw(t, l+"ks"), ZeroKey: rapid.IntRange(0, 6).Draw(t, l+"zk") == 0,
 			Cut: rapid.IntRange(0, 400).Draw(t, l+"cut"), InnerOwn: rapid.Bool().Draw(t, l+"own"), NewKey: rapid.IntRange(0, 3).Draw(t, l+"nk") == 0,
@@ -345,6 +345,30 @@ func checkC(c CaseC) *core.Violation {
 			if len(w.TS.Agents.Agents) != before || code == 200 {
 				return core.V("register|truncated-accepted", "step %d: registration cut to %d of %d bytes answered %d and sessions went %d -> %d", si, cut, len(full), code, before, len(w.TS.Agents.Agents))
 			}
+		case "smbreg-mismatch":
+			// a parent reports SMB_CONNECT with a child package whose header names an unknown agent
+			// and whose encrypted part names ANOTHER id (an existing session's, or a fresh one):
+			// the same id-mismatch a direct registration is refused for
+			parent := c.IDs[op.Other%len(c.IDs)]
+			pm := model[parent]
+			if pm == nil || parent == id || model[id] != nil {
+				continue
+			}
+			inner := c.IDs[(op.Other+1)%len(c.IDs)]
+			if inner == id {
+				inner = id ^ 0x00a5a5a5
+			}
+			ps := agx.Sess{ID: parent, Key: pm.key, IV: pm.iv}
+			child := op.Meta.ref(inner).InitPackage(id, key, iv)
+			body := (&demonref.Enc{}).Int32(demonref.PivotSmbCon).Int32(1).Bytes(child).B
+			before, beforeInner := len(w.TS.Agents.Agents), w.AgentsWithID(inner)
+			code, _, _, _ := w.Checkin(ps, []demonref.Sub{{Cmd: demonref.CmdPivot, ReqID: 0, Body: body}})
+			if code != 200 {
+				return core.V("smb-register|status", "step %d: batch with an SMB_CONNECT callback answered %d", si, code)
+			}
+			if len(w.TS.Agents.Agents) != before || w.AgentsWithID(id) != 0 || w.AgentsWithID(inner) != beforeInner {
+				return core.V("smb-register|id-mismatch-accepted", "step %d: a child registration relayed by %08x whose header names %08x and whose encrypted part names %08x changed the session table (%d -> %d sessions, %d under the header id, %d -> %d under the inner id)", si, parent, id, inner, before, len(w.TS.Agents.Agents), w.AgentsWithID(id), beforeInner, w.AgentsWithID(inner))
+			}
 		case "smbreg":
 			// registration of a new child through a parent's SMB_CONNECT callback
 			parent := c.IDs[op.Other%len(c.IDs)]
@@ -379,7 +403,7 @@ func classifyC(c CaseC) core.Class {
 		ks[op.Kind] = true
 		cl.Labels = append(cl.Labels, "op:"+op.Kind)
 	}
-	cl.NonTrivial = ks["rereg"] || ks["cbcheckin"] || ks["reg0"] || ks["smbreg"] || ks["markdead"] || ks["exitcb"]
+	cl.NonTrivial = ks["rereg"] || ks["cbcheckin"] || ks["reg0"] || ks["smbreg"] || ks["smbreg-mismatch"] || ks["markdead"] || ks["exitcb"]
 	var names []string
 	for k := range ks {
 		names = append(names, k)
@@ -392,7 +416,7 @@ func classifyC(c CaseC) core.Class {
 func TestC03c(t *testing.T) {
 	core.Run(t, core.Spec[CaseC]{
 		Property: "C03", Sub: "c",
-		Rule: "histories of 1-14 operations over 2-4 agent ids (incl. >=2^31) on the real Teamserver + sqlite + HTTP listener engine: registration, DEMON_INIT for an existing id (alive, marked dead, exited), check-in, operator mark dead/alive, exit callback, COMMAND_CHECKIN callback naming the sender or another id (same or new key), registration with header id 0, truncated registration, registration of a child through SMB_CONNECT; after every step the session table is compared with a model (ids exactly the registered ones and pairwise distinct, key/IV/metadata as sent, registration reply = id under the session key). Non-trivial: history with a re-registration, CHECKIN callback, header-0 registration or SMB registration; distinct = (set of op kinds, length bucket)",
+		Rule: "histories of 1-14 operations over 2-4 agent ids (incl. >=2^31) on the real Teamserver + sqlite + HTTP listener engine: registration, DEMON_INIT for an existing id (alive, marked dead, exited), check-in, operator mark dead/alive, exit callback, COMMAND_CHECKIN callback naming the sender or another id (same or new key), registration with header id 0, truncated registration, a relayed child registration whose encrypted part names another id than its header, registration of a child through SMB_CONNECT; after every step the session table is compared with a model (ids exactly the registered ones and pairwise distinct, key/IV/metadata as sent, registration reply = id under the session key). Non-trivial: history with a re-registration, CHECKIN callback, header-0 registration or SMB registration; distinct = (set of op kinds, length bucket)",
 		Gen:   genC, Check: checkC, Classify: classifyC,
 	})
 }
